@@ -164,6 +164,30 @@ Theorem C02_only_absence_is_reported_as_missing : forall canon digest sig_ok par
 Proof. exact missing_signature_iff. Qed.
 Print Assumptions C02_only_absence_is_reported_as_missing.
 
+(* with the canonicalisers AND the re-parse of the goxmldsig model instantiated (Canon.canon_model; DsigReader.reparse_model =
+   XmlTok.read_tree, the tokenizer and etree's tree building as functions) what an honoured signature hands on is no longer
+   "the parse of the verified bytes" by an oracle: for the usual layout (first signature met, transforms = enveloped-signature
+   + one canonicalisation c0) it is the PREPARED form of the root minus exactly that Signature element, normalised -- a
+   function of the presented tree; only digest, signature check and certificate parser remain oracles.  Premise
+   [c14n_wf] (on the prepared tree p, or simply on the presented root): see Prop_DSIG.DSIG_canonical_bytes_reparse_to_prepared_tree. *)
+From V Require Import P_DsigExact Canon XmlTok P_XmlTok DsigReader P_DsigReader.
+Theorem C02_honoured_tree_is_prepared_signed_tree : forall digest sig_ok parse_cert store now root v,
+  dsig_validate_reader digest sig_ok parse_cert store now root = DOk v ->
+  exists root' f sb sin sinfo2 r,
+    find_signature root = Ok (root', f) /\
+    canon_model (fs_si_alg f) (fs_si_detached f) = Some sb /\ reparse_model sb = Some sin /\
+    unmarshal_signed_info sin = Ok sinfo2 /\ r = last (si_refs sinfo2) zero_ref /\
+    (FirstSignature root (fs_path f) ->
+     forall t1 t2 c0, ref_transforms r = [t1; t2] -> tr_alg t1 = alg_enveloped -> c14n_of t2 = Some c0 ->
+       exists body p want,
+         remove_at_path root (fs_path f) = Some body /\ canon_prep c0 body = Some p /\
+         base64_decode (ref_digest_value r) = Some want /\ digest (ref_digest_alg r) (c14n_write p) = Some want /\
+         read_tree (c14n_write p) = Ok v /\
+         (c14n_wf_elem p = true -> v = normalise p) /\
+         (c14n_wf root = true -> v = normalise p)).
+Proof. exact dsig_sound_reader_first_signature. Qed.
+Print Assumptions C02_honoured_tree_is_prepared_signed_tree.
+
 (* source tie: a signature that is present but does not verify makes the TRANSLATED ValidateEncodedResponse of this run
    return an error other than "missing signature" *)
 From V Require Import Generated Keys GenPrelude GenPreludeD GenPreludeT GenFuncs GenTree P_GenTree P_GenTreeProps.
